@@ -7,7 +7,8 @@ use serde_json::json;
 use std::time::Duration;
 use vp_common::report::par_map;
 use vp_common::{Cli, Report, Rng};
-use vp_sim::client::EncVariant;
+use vp_common::refcodec::Pkt;
+use vp_sim::client::{Act, EncVariant, Out};
 use vp_sim::recadapters::{Call, StrategyScript};
 
 #[derive(Clone, Debug)]
@@ -21,6 +22,9 @@ struct Case {
     honest: bool,
     secret: [u8; 16],
     server_secret: Option<Vec<u8>>,
+    /// the client sends a second Login Start (another name and UUID) where the Encryption Response
+    /// is due: not the expected packet, the connection ends and nobody is admitted
+    second_login_start: bool,
 }
 
 fn enc_variants(rng: &mut Rng) -> Vec<EncVariant> {
@@ -63,6 +67,11 @@ fn generate(cli: &Cli) -> Vec<Case> {
                                 claimed.name = mk::hostile_name(&mut rng);
                             }
                             let mut authed = mk::ident(&mut rng, "vouched");
+                            // names are the service's (or the cookie's) to state: blanks, non-ASCII text,
+                            // invisible characters in them are part of the identity
+                            if rng.chance(1, 4) {
+                                authed.name = mk::hostile_name(&mut rng);
+                            }
                             // verdicts that name "nobody": still the service's answer, never the claim
                             match rng.below(12) {
                                 0 => authed.uuid = 0,
@@ -75,7 +84,10 @@ fn generate(cli: &Cli) -> Vec<Case> {
                             }
                             let np = rng.below(4) as usize;
                             let authed_props = mk::props(&mut rng, np);
-                            let cookie_id = mk::ident(&mut rng, "cookie");
+                            let mut cookie_id = mk::ident(&mut rng, "cookie");
+                            if rng.chance(1, 4) {
+                                cookie_id.name = mk::hostile_name(&mut rng);
+                            }
                             let np = rng.below(3) as usize;
                             let cookie_props = mk::props(&mut rng, np);
                             let server_secret = if with_secret { Some(rng.bytes_between(1, 40)) } else { None };
@@ -127,6 +139,13 @@ fn generate(cli: &Cli) -> Vec<Case> {
                                 let session = serde_json::to_vec(&json!({"id": uuid_string(rng.u64() as u128), "server_address": "other-host.example.net", "server_port": 1})).expect("json");
                                 plan.cookies.push((mk::SESSION_KEY.to_string(), Some(session)));
                             }
+                            let second_login_start = rng.chance(1, 12);
+                            if second_login_start
+                                && let Some(pos) = plan.script.iter().position(|a| matches!(a, Act::EncryptionResponse))
+                            {
+                                let intruder = mk::ident(&mut rng, "intruder");
+                                plan.script.insert(pos, Act::Send { label: "SecondLoginStart".into(), out: Out::Pkt(Pkt::LoginStart { name: intruder.name.clone(), uuid: intruder.uuid }) });
+                            }
                             let nt = rng.range(1, 4) as usize;
                             let mut adapters = mk::routing_adapters(if auth_ok { Some((&authed, &authed_props)) } else { None }, mk::targets(&mut rng, nt));
                             adapters.strategy = StrategyScript::Position(rng.below(4) as usize);
@@ -157,6 +176,7 @@ fn generate(cli: &Cli) -> Vec<Case> {
                                 honest: enc.is_honest(),
                                 secret,
                                 server_secret,
+                                second_login_start,
                             });
                         }
                     }
@@ -186,7 +206,7 @@ fn check(case: &Case, run: &Run) -> Vec<Finding> {
         .collect();
 
     // who, if anyone, vouches for an identity on this connection?
-    let vouched: Option<(&Ident, &Vec<Prop>, &str)> = if !case.honest {
+    let vouched: Option<(&Ident, &Vec<Prop>, &str)> = if !case.honest || case.second_login_start {
         None
     } else if case.cookie_accepted {
         case.cookie_ident.as_ref().map(|(i, p)| (i, p, "cookie"))
@@ -196,7 +216,7 @@ fn check(case: &Case, run: &Run) -> Vec<Finding> {
 
     match vouched {
         None => {
-            let why = if !case.honest { "dishonest-encryption-response" } else { "auth-service-failed" };
+            let why = if case.second_login_start { "second-login-start-instead-of-encryption-response" } else if !case.honest { "dishonest-encryption-response" } else { "auth-service-failed" };
             if !granted.is_empty() {
                 bad(
                     &format!("granted-without-authentication/{why}"),
